@@ -144,7 +144,6 @@ func cmdXclaim(s *Server, ss *Session, a [][]byte) resp.Value {
 func cmdRestore(s *Server, ss *Session, a [][]byte) resp.Value {
 	return resp.Err("ERR restore not modelled")
 }
-func cmdEval(s *Server, ss *Session, a [][]byte) resp.Value { return resp.Err("ERR eval not modelled") }
 
 // KeyIndexes is the double's own key-position table (from the Redis command reference).
 func KeyIndexes(name string, args [][]byte) ([]int, bool) {
